@@ -165,6 +165,7 @@ struct ConcCase {
     initial: Vec<FDoc>,
     ops: Vec<COp>,
     what: &'static str,
+    post_reads: bool,
 }
 
 fn gen_conc(rng: &mut Rng, three: bool) -> ConcCase {
@@ -219,7 +220,8 @@ fn gen_conc(rng: &mut Rng, three: bool) -> ConcCase {
             ops.push(COp::Add(want));
         }
     }
-    ConcCase { cfg, initial, ops, what }
+    let post_reads = rng.bool();
+    ConcCase { cfg, initial, ops, what, post_reads }
 }
 
 async fn run_schedule(cc: &ConcCase, chooser: &mut dyn Chooser, st: &mut Stats) -> Option<Vec<usize>> {
@@ -240,6 +242,9 @@ async fn run_schedule(cc: &ConcCase, chooser: &mut dyn Chooser, st: &mut Stats) 
     }
     let _ = d.step(&Op::Flush, st).await;
     store.set_gate(true);
+    // update = read, then write: half of the cases may also be parked between a read's response
+    // and what the task does with it
+    store.set_gate_after_reads(cc.post_reads);
     let coll = d.coll.clone();
     let mut ex: ManualExec<'_, CRes> = ManualExec::new();
     for op in &cc.ops {
@@ -260,6 +265,7 @@ async fn run_schedule(cc: &ConcCase, chooser: &mut dyn Chooser, st: &mut Stats) 
     }
     let r = ex.run(chooser, 4000, |_, _, _| {});
     store.set_gate(false);
+    store.set_gate_after_reads(false);
     let trace = ex.trace.clone();
     let describe = |ex: &ManualExec<'_, CRes>| -> Vec<String> {
         (0..cc.ops.len()).map(|i| format!("{:?} -> {:?}", brief(&cc.ops[i]), ex.result(i))).collect()
